@@ -88,3 +88,59 @@ UNITS = [
          must_have=[r"lemma.translate_sq"], checks=["--signed-overflow-check"],
          note="lemma: the specified coefficients make f'(x + t) == f(x)"),
 ]
+
+
+# ---------------------------------------------------------------------------
+# GeneralQuadric: coefficients of the quadratic along a ray
+# ---------------------------------------------------------------------------
+GQ = "src/orange/surf/GeneralQuadric.hh"
+GQ_MODEL = """
+/* exact-integer abstraction (VERIF_REAL_AS_INT).  Every variable occurs with degree <= 2 in the identity below, so a polynomial that
+   vanishes for all values in {-1, 0, 1} vanishes identically: the range {-1,0,1} per variable is a COMPLETE proof of the identity over the reals. */
+typedef struct { real_type a_, b_, c_, d_, e_, f_, g_, h_, i_, j_; } GeneralQuadric;
+typedef struct { real_type v[2]; } Intersections;
+real_type g_a, g_b, g_c;     /* ghost: the quadratic coefficients handed to the solver (a, b, c with half_b = b / 2) */
+Intersections QS_solve_general(real_type a, real_type half_b, real_type c, int on_surface) __CPROVER_requires(1) __CPROVER_assigns() __CPROVER_ensures(1);
+/* the surface function  f(x,y,z) = a x^2 + b y^2 + c z^2 + d xy + e yz + f zx + g x + h y + i z + j  (GeneralQuadric.hh class documentation) */
+static real_type gq_eval(GeneralQuadric const* q, real_type x, real_type y, real_type z)
+{
+    return q->a_ * x * x + q->b_ * y * y + q->c_ * z * z + q->d_ * x * y + q->e_ * y * z + q->f_ * z * x + q->g_ * x + q->h_ * y + q->i_ * z + q->j_;
+}
+"""
+GQ_RULES = [
+    Rule(r"\b([a-j]_)\b", r"self->\1", "+", note="data member"),
+    Rule(r"\b(pos|dir)\[(\d)\]", r"\1[\2]", "*", note="Real3 const& -> pointer to 3 reals"),
+    Rule(r"return QuadraticSolver::solve_general\(a, b / 2, c, on_surface\);", "g_a = a; g_b = b; g_c = c; return QS_solve_general(a, b / 2, c, on_surface);", 1, note="solver call -> stub; ghost capture of the coefficients"),
+]
+
+
+def build_gq_coeffs(ctx):
+    pc = ctx.func(GQ, r"^GeneralQuadric::calc_intersections\(Real3 const& pos,", GQ_RULES, name="GeneralQuadric::calc_intersections")
+    return (HDR + GQ_MODEL + """
+real_type g_t;   /* ghost: an arbitrary distance along the ray */
+#define R1(v) ((v) >= -1 && (v) <= 1)
+Intersections GQ_calc_intersections(GeneralQuadric const* self, real_type const* pos, real_type const* dir, int on_surface)
+__CPROVER_requires(self != 0 && __CPROVER_r_ok(pos, 3 * sizeof(real_type)) && __CPROVER_r_ok(dir, 3 * sizeof(real_type)))
+__CPROVER_requires(R1(self->a_) && R1(self->b_) && R1(self->c_) && R1(self->d_) && R1(self->e_) && R1(self->f_) && R1(self->g_) && R1(self->h_) && R1(self->i_) && R1(self->j_))
+__CPROVER_requires(R1(pos[0]) && R1(pos[1]) && R1(pos[2]) && R1(dir[0]) && R1(dir[1]) && R1(dir[2]) && R1(g_t))
+__CPROVER_assigns(g_a, g_b, g_c)
+/* the solver is given the coefficients of the surface function restricted to the ray: f(pos + t dir) == a t^2 + b t + c for every t */
+__CPROVER_ensures(gq_eval(self, pos[0] + g_t * dir[0], pos[1] + g_t * dir[1], pos[2] + g_t * dir[2]) == g_a * g_t * g_t + g_b * g_t + g_c)
+{""" + pc.body + """}
+void h_gq(void)
+{
+    GeneralQuadric q; real_type p[3], d[3], t; int s;
+    g_t = t;
+    GQ_calc_intersections(&q, p, d, s);
+    VERIF_CANARY();
+}
+""")
+
+
+UNITS += [
+    Unit("c12_gq_ray_coeffs", build_gq_coeffs, "h_gq", enforce="GQ_calc_intersections", replace=["QS_solve_general"], timeout=900, backend=["sat", "kissat", "cvc5"], defines=["VERIF_REAL_AS_INT"],
+         bounded="exact-integer abstraction of real_type with every variable in {-1,0,1}; complete for the polynomial identity (degree <= 2 per variable); floating-point rounding not covered",
+         must_have=[r"GQ_calc_intersections.postcondition"], checks=["--bounds-check", "--pointer-check", "--signed-overflow-check"],
+         assumptions=["QuadraticSolver::solve_general not under contract (sqrt)"],
+         note="GeneralQuadric::calc_intersections: the quadratic handed to the solver is the surface function along the ray, f(pos + t dir) == a t^2 + b t + c"),
+]
